@@ -12,7 +12,7 @@ m = json.load(open(d + "meta.json"))
 c = m.get("confirmed_by_builder") or {}
 c["demo_exit_with_change"] = int(re.search(r"demo.py exit with change applied: (\d+)", out).group(1))
 c["demo_exit_unchanged"] = int(re.search(r"demo.py exit on the unchanged tree: (\d+)", out).group(1))
-c["checks_run"] = re.findall(r"--- \./vcheck (\S+)", out)
+c["checks_run"] = re.findall(r"--- .*\./vcheck (\S+)", out)
 c["violations"] = sorted(set(re.findall(r"VIOLATION property=(\S+) replay=\S+ obligation=(\S+)", out)))
 c["violations"] = [f"{p} {o}" for p, o in c["violations"]]
 c["caught"] = bool(c["violations"])
